@@ -298,7 +298,7 @@ fn arb_scenario(max_workers: usize, max_tasks: usize) -> impl Strategy<Value = S
 pub fn run(ctx: &Ctx) {
     ctx.rule("stress mode: scenarios of 1..8 workers, up to 12 tasks each with a panic flag and a busy time, an optional witness batch (N tasks that each wait for the other N-1 to have started), a second round of tasks (a restarted worker panicking again), ended by stop()+drop or by drop alone, on the real OS scheduler with generated submission gaps. History invariants: every submitted task starts exactly once and, unless it panics, finishes exactly once; tasks after a panic still run; the witness completes (pool back to N usable workers); never more than N tasks between start and finish; stop/drop return within 10 s; afterwards every worker thread that ran a task exits (thread-local exit guards). Non-trivial: scenario contains a panic or omits stop; distinct by scenario");
     ctx.assume("stress mode samples OS interleavings (a race can be missed, never falsely reported); the recovery thread is allowed to stay blocked forever; stop() before start() is outside the quantifier");
-    let cases = ctx.tier.pick(600u32, 20_000u32);
+    let cases = if std::env::var("HV_C08_ONLY_SCHED").is_ok() { 0 } else { ctx.tier.pick(600u32, 20_000u32) };
     let nshards = 8;
     crate::engine::shards(nshards, |i| {
         pt::run(
@@ -332,10 +332,20 @@ pub fn run(ctx: &Ctx) {
             },
         );
     });
+    if !ctx.has_failed() && std::env::var("HV_C08_NO_SCHED").is_err() {
+        if cfg!(humphrey_verif_shim) {
+            super::c08_sched::run(ctx);
+        } else {
+            // ./check fell back to a build without the scheduling shim (the pool's sources no longer compile against it)
+            ctx.inconclusive("schedule mode skipped: thread/pool.rs and thread/recovery.rs do not build against the scheduling shim (they use std items the shim does not wrap); stress mode only");
+            ctx.label("sched:skipped-no-shim", 1);
+        }
+    }
 }
 
 pub fn replay(_ctx: &Ctx, kind: &str, case: &J) -> Vec<Fail> {
     match kind {
+        "sched" | "sched-random" => super::c08_sched::replay(case),
         "stress" => match serde_json::from_value::<Scenario>(case.clone()) {
             Ok(s) => run_stress(&s),
             Err(e) => vec![Fail::new("harness", format!("bad replay case: {}", e))],
